@@ -471,6 +471,8 @@ CHECKS["C02"]["thorough"]["tests"].append({"test": "TestC02Triple", "checks": 60
 CHECKS["C02"]["rule"] += (" Plus the triple-occurrence texts of C19 (d): one string three times with the first copy outside the "
                           "window of the third and the second inside (or other combinations).")
 
+CHECKS["C16"]["quick"]["tests"].append({"test": "TestC16Huge", "checks": 1500, "subchecks": KINDS7})
+CHECKS["C16"]["thorough"]["tests"].append({"test": "TestC16Huge", "checks": 6000, "subchecks": KINDS7})
 CHECKS["C02"]["quick"]["tests"].append({"test": "TestC02Huge", "checks": 2000, "subchecks": KINDS7})
 CHECKS["C02"]["thorough"]["tests"].append({"test": "TestC02Huge", "checks": 8000, "subchecks": KINDS7})
 CHECKS["C02"]["rule"] += (" Plus 'no window limit' configurations: WindowSize at and a little below the largest accepted value "
@@ -483,6 +485,11 @@ CHECKS["C15"]["rule"] += (" Plus two parsers side by side: A is given a caller s
                           "dropped, the caller overwrites its slice; B, fed in between (sizes up to 100 kB), must still show "
                           "exactly the bytes it was fed.")
 
+CHECKS["C17"]["quick"]["tests"].append({"test": "TestC17HugeArray", "checks": 200, "subchecks": 1})
+CHECKS["C17"]["thorough"]["tests"].append({"test": "TestC17HugeArray", "checks": 1000, "subchecks": 1})
+CHECKS["C17"]["rule"] += (" Plus caller-supplied arrays: 1/8 of the DecoderBuffer histories start from a Data slice with a "
+                          "capacity drawn around BufferSize, and TestC17HugeArray runs histories on an array of 2^32-1 .. 2^33 bytes "
+                          "(address space only), which the buffer adopts as its size.")
 CHECKS["C04"]["quick"]["tests"].append({"test": "TestC04Volume", "checks": 4, "subchecks": 1, "env": {"VERIF_VOLUME_DEC": "1"}})
 CHECKS["C04"]["thorough"]["tests"].append({"test": "TestC04Volume", "checks": 12, "subchecks": 1, "env": {"VERIF_VOLUME_DEC": "1"}})
 CHECKS["C04"]["rule"] += (" Plus volume: one DecoderBuffer / Decoder is driven past 2^32 bytes of output without a Reset (periodic "
